@@ -132,6 +132,22 @@ func c19NoRecover(c *vlib.Ctx) {
 			c.Count("prefixes_enumerated", lim+1)
 			c.End()
 		}
+		// structure-aware variants of the first seeds: tail stretched with the covering length fields adjusted
+		for si, seed := range cp.Seeds[t] {
+			if si >= c.Pick(40, 400) {
+				break
+			}
+			idx++
+			if !c.Begin(idx) {
+				continue
+			}
+			vs, hows := cp.Structural(seed)
+			for i, b := range vs {
+				s.one(t, b, hows[i])
+			}
+			c.Count("structural_variants", len(vs))
+			c.End()
+		}
 		chunk := 100
 		for k := 0; k < perType; k += chunk {
 			idx++
